@@ -120,6 +120,7 @@ def run(ctx: Ctx):
                       why=f"{f.why} | taint chain: {' > '.join(c[:70] for c in f.chain)[:400]}",
                       construct=f"{f.fn.qualname}:{f.what}", witness={"chain": f.chain})
     ctx.attempt(sort_keys, ctx, h)
+    ctx.attempt(exempt_listings, ctx)
     ctx.attempt(selection_ties, ctx)
     ctx.attempt(randomness, ctx)
     ctx.attempt(uuids, ctx)
@@ -128,6 +129,35 @@ def run(ctx: Ctx):
     ctx.assumptions += ["code outside nrel/hive that receives a set / Map treats it as unordered (list in coverage.ho.unresolved_set_callees_assumed_order_free)",
                         "scipy / networkx / cKDTree are deterministic for equal inputs"]
     ctx.not_decided += ["bit-identical floating point results across machines", "determinism of third-party libraries"]
+
+
+ORDER_FREE_CONSUMERS = {"sorted", "set", "frozenset", "len", "any", "all", "min", "max", "sum", "Counter"}
+
+
+def exempt_listings(ctx: Ctx):
+    """The property exempts the order in which the members of a set-valued field are PRINTED. The functions tabled above for that reason
+    (Membership.as_tuple / __str__ / to_json) hand out a hash-ordered listing; the exemption covers it only while it goes to a report
+    record or a message. A caller in the simulation that iterates, indexes or unpacks such a listing makes hash order decide something:
+    every call is therefore required to sit in an order-free consumer (sorted, set, len, membership test) or in the reporting code."""
+    from ..index import index, in_pkg
+    names = {q.split(".")[-1] for (f, q, w) in EXCEPTIONS if w == "origin" and f.endswith("membership.py")} - {"__str__"}
+    n = 0
+    for nm in sorted(names):
+        for s in index(ctx.repo).calls(nm):
+            if not in_pkg(s) or s.func is None or "/reporting/" in s.file or s.file.endswith("membership.py"):
+                continue
+            if not isinstance(s.node.func, ast.Attribute):
+                continue
+            par = parent(s.node)
+            ok = (isinstance(par, ast.Call) and s.node in par.args and (dotted(par.func) or "").split(".")[-1] in ORDER_FREE_CONSUMERS) or \
+                 (isinstance(par, ast.Compare) and s.node in par.comparators and all(isinstance(o, (ast.In, ast.NotIn)) for o in par.ops)) or \
+                 (isinstance(par, ast.Dict) or isinstance(par, ast.keyword) or isinstance(par, ast.JoinedStr) or isinstance(par, ast.FormattedValue))
+            n += 1
+            ctx.check(ok, "D1", "HO.use", f"{s.func.qualname}: the hash-ordered listing `{flow.dump(s.node)[:60]}` goes to an order-free consumer or a record", s.func, s.node,
+                      why_bad=f"`{flow.dump(par)[:100] if par is not None else ''}` consumes the listing in its (hash) order: the exemption for the printed order of set members does not "
+                              f"cover a loop, an index or a key built from it -- which member comes first then differs between processes",
+                      construct=f"{s.func.qualname}:listing-order:{nm}")
+    ctx.extra["exempt_listing_calls"] = n
 
 
 def sort_keys(ctx: Ctx, h: HO):
